@@ -53,7 +53,7 @@ def sha(s):
 
 # ----------------------------------------------------------------------------- directives
 
-DIRECTIVE_RE = re.compile(r'/\*@(\s*extract\b.*?)@\*/', re.S)
+DIRECTIVE_RE = re.compile(r'/\*@(\s*extract(?:-stmts)?\b.*?)@\*/', re.S)
 SECTION_RE = re.compile(r'^(requires|ensures|decreases|loop\s+\d+|closure\s+\d+|before\s+`.*`|after\s+`.*`|opens_invariants.*|no_unwind.*)\s*$')
 
 
@@ -69,6 +69,12 @@ class Directive:
         self.derive = None
         self.traits = []
         self.nopub = False
+        self.stmts = False
+        self.from_pat = None
+        self.to_pat = None
+        self.drops = []
+        self.wrap_sig = None
+        self.tail = None
         self.sig_rewrites = []    # (tag, a, b)
         self.rewrites = []        # (tag, all, a, b)
         self.requires = None
@@ -86,10 +92,11 @@ def parse_directive(text, line):
     d.line = line
     lines = text.strip('\n').split('\n')
     head = lines[0].strip()
-    m = re.match(r'extract\s+(\S+)\s*::\s*(.+)$', head)
+    m = re.match(r'extract(-stmts)?\s+(\S+)\s*::\s*(.+)$', head)
     if not m:
         raise ValueError(f'bad directive head at template line {line}: {head!r}')
-    d.file, d.path = m.group(1), m.group(2).strip()
+    d.stmts = bool(m.group(1))
+    d.file, d.path = m.group(2), m.group(3).strip()
     cur = None
     buf = []
 
@@ -140,6 +147,16 @@ def parse_directive(text, line):
                     d.ret = s[4:].strip()
                 elif s == 'expect-fail':
                     d.expect_fail = True
+                elif s.startswith('from '):
+                    d.from_pat = s[5:].strip().strip('`')
+                elif s.startswith('to '):
+                    d.to_pat = s[3:].strip().strip('`')
+                elif s.startswith('drop '):
+                    d.drops.append(s[5:].strip().strip('`'))
+                elif s.startswith('wrap '):
+                    d.wrap_sig = s[5:].strip()
+                elif s.startswith('tail '):
+                    d.tail = s[5:].strip().strip('`')
                 elif s == 'nopub':
                     d.nopub = True
                 elif s == 'elide-async':
@@ -671,7 +688,30 @@ def render_item(repo_root, d, log, cache):
     if it.body_start is None:
         raise LostAnchor(f'{what}: fn has no body')
     sig, body = rustsrc.split_fn(src, it)
-    ex.name = d.as_name or it.name
+    if d.stmts:
+        # a contiguous statement range of the body, wrapped into a synthetic function (the signature,
+        # the returned tuple and the contract are written in the template; the statements are verbatim)
+        inner = body
+        ms = list(ws_pattern(d.from_pat).finditer(inner))
+        me = list(ws_pattern(d.to_pat).finditer(inner))
+        if len(ms) != 1 or len(me) != 1 or me[0].end() <= ms[0].start():
+            raise LostAnchor(f'{what}: statement range `{d.from_pat}` .. `{d.to_pat}` not found uniquely ({len(ms)}/{len(me)} matches)')
+        seg = inner[ms[0].start():me[0].end()]
+        for dp in d.drops:
+            md = list(ws_pattern(dp).finditer(seg))
+            if len(md) != 1:
+                raise LostAnchor(f'{what}: dropped statement `{dp}` matches {len(md)} times')
+            seg = seg[:md[0].start()] + seg[md[0].end():]
+            log.append({'rule': 'stmt-range-drop', 'in': what, 'text': dp[:160]})
+        log.append({'rule': 'stmt-range', 'in': what, 'from': d.from_pat, 'to': d.to_pat})
+        sig = d.wrap_sig
+        body = '{\n        ' + seg + '\n        ' + (d.tail or '') + '\n    }'
+        it_name = re.search(r'fn\s+(\w+)', sig).group(1)
+        d.as_name = None
+        ex.name = it_name
+
+    if not d.stmts:
+        ex.name = d.as_name or it.name
     # ---- body drops and rewrites
     body = drop_macro_statements(body, what, log)
     body = rewrite_let_chains(body, what, log)
